@@ -79,7 +79,9 @@ def time_limit(seconds):
 
 
 def exc_str(ex):
-    return "".join(traceback.format_exception_only(type(ex), ex)).strip()[:500]
+    s = "".join(traceback.format_exception_only(type(ex), ex)).strip()
+    # database errors quote the whole statement first and say what is wrong last: keep both ends
+    return s if len(s) <= 700 else s[:300] + " [...] " + s[-400:]
 
 
 def split_plan(total, batches):
